@@ -2,7 +2,7 @@
     Property theorems only. *)
 From Coq Require Import ZArith List Bool.
 From PV Require Import Model.Base Model.Sched Model.Seq.
-From PV Require Gen.Pure Gen.PureLoops Model.Chan Proofs.PureEq Proofs.PureLoopsEq.
+From PV Require Gen.Pure Gen.PureLoops Gen.PureSlot Model.Chan Proofs.PureEq Proofs.PureLoopsEq Proofs.PureSlotEq.
 From PV Require Import Proofs.SchedInv Proofs.ConflictSpec Proofs.RetargetSpec Proofs.RetargetWitness.
 Import ListNotations.
 Open Scope Z_scope.
@@ -112,3 +112,22 @@ Theorem C10_source_last_pulse_slot :
     end.
 Proof. exact PureLoopsEq.last_pulse_slot_eq. Qed.
 Print Assumptions C10_source_last_pulse_slot.
+
+(** Tie to the source by translation: where a pulse is scheduled.  In every state
+    in which the channel exists and has a last slot, the model's
+    [make_next_pulse_slot] returns exactly the slot (start, end, phase of the
+    scheduled pulse) or the error computed by the function REGENERATED from the
+    current source of _Schedule.make_next_pulse_slot (barriers, conflict scan,
+    phase-jump buffer, rounding of the inserted wait, duration check, drift-corrected
+    phase). *)
+Theorem C10_source_make_next_pulse_slot :
+  forall (e : env) (p : pulse) (n : Z) (barriers : list Z) (proto : Z)
+         (dp : option drift) (block : bool) (s : sched) (last : slot) (c : chan),
+    last_slot n s = (s, Ok last) ->
+    the_chan n s = (s, Ok c) ->
+    make_next_pulse_slot e p n barriers proto dp block s =
+    (s, PureSlotEq.slot_of e n p dp last
+          (Gen.PureSlot.gen_make_next_pulse_slot s c last n barriers
+             (negb (negb (proto =? 1))) (proto =? 2) dp (p_phase p) (p_dur p) (en_max e) block)).
+Proof. exact PureSlotEq.make_next_pulse_slot_eq. Qed.
+Print Assumptions C10_source_make_next_pulse_slot.
